@@ -79,6 +79,16 @@ func genC12(t *rapid.T) c12Case {
 		c.Route = pick(t, []string{"cli-stdout", "cli-file-fresh", "cli-file-longer", "cli-file-shorter"}, "route")
 	}
 	genScale(t, gr, 16)
+	// mass failure: a validation that every one of some thousand filler nodes fails - a report of a megabyte or more
+	if rapid.IntRange(0, 11).Draw(t, "massFailure") == 0 {
+		gr.Bulk, gr.BulkBlank = rapid.SampledFrom([]int{600, 1100, 1500}).Draw(t, "massNodes"), false
+		vm := m.YMap()
+		vm.Set("targetClass", m.YStr("ex.Filler"))
+		vm.Set("message", m.YStr("a filler node without the property nobody has: {{ex.fillerLabel}}"))
+		vm.Set("propertyConstraints", m.YMap().Set("ex.absent", m.YMap().Set("minCount", m.YInt(1))))
+		c.ProfileText = appendValidation(c.ProfileText, "vfill", vm)
+		c.Shapes = append(c.Shapes, "vfill")
+	}
 	return c
 }
 
@@ -225,6 +235,19 @@ func decideC12(c c12Case) ev.Verdict {
 	if res.failed() {
 		return ev.Violation("c12-call-failed:"+classifyErr(res), "validation failed: %s\n%s", trunc(res.errString(), 400), c.ProfileText)
 	}
+	if len(res.Report) > 1<<20 {
+		// straight after a very large report, a validation of an empty document with the same profile: its report is
+		// a report like any other (one JSON document)
+		small := validateFixed(c.ProfileText, "[]")
+		if small.failed() {
+			return ev.Violation("c12-call-failed:"+classifyErr(small), "validating an empty document after a report of %d bytes failed: %s", len(res.Report), trunc(small.errString(), 400))
+		}
+		var sdoc any
+		sdec := json.NewDecoder(strings.NewReader(small.Report))
+		if err := sdec.Decode(&sdoc); err != nil || sdec.More() {
+			return ev.Violation("c12-not-json", "the report of an empty document, validated straight after a report of %d bytes, is not one JSON document (%d bytes, error %v)", len(res.Report), len(small.Report), err)
+		}
+	}
 	if c.Route != "" && os.Getenv("ACV_BIN") != "" {
 		dir := scratchDir()
 		pf, df, of := filepath.Join(dir, "c12p.yaml"), filepath.Join(dir, "c12d.jsonld"), filepath.Join(dir, "c12out.jsonld")
@@ -299,6 +322,9 @@ func decideC12(c c12Case) ev.Verdict {
 	for _, n := range c.Graph.Nodes {
 		nodeIDs[n.ID] = true
 	}
+	for i := 0; i < c.Graph.Bulk; i++ {
+		nodeIDs[fmt.Sprintf("%sfiller%d", m.NodeNS, i)] = true
+	}
 	var st c12Stats
 	if rl, has := node["result"]; has {
 		list, ok := rl.([]any)
@@ -322,6 +348,9 @@ func decideC12(c c12Case) ev.Verdict {
 	}
 	if c.Graph.Bulk > 0 {
 		v.Labels = append(v.Labels, "bulk-nodes")
+	}
+	if len(res.Report) > 1<<20 {
+		v.Labels = append(v.Labels, "report-over-1MiB")
 	}
 	v.Labels = append(v.Labels, fmt.Sprintf("max-traces:%d", minInt(st.maxTraces, 5)), fmt.Sprintf("subresult-depth:%d", minInt(st.maxDepth, 5)), fmt.Sprintf("max-subresults-per-trace:%d", minInt(st.maxSubs, 5)))
 	if st.locations > 0 {
